@@ -1,3 +1,4 @@
+# C19 - L2CAP fragmentation and reassembly are exact and memory safe (ll_l2cap_sdu_buffer.hpp)
 import os
 from vf.core import Property, Harness, Unit, REPO
 
@@ -5,62 +6,119 @@ SDU = Unit('sdu', includes=['stubs', REPO + '/bluetoe/bindings/nordic/include'],
            description='bluetoe::link_layer::ll_l2cap_sdu_buffer<Radio, Callbacks, MTU> for MTU 65 with default_pdu_layout and with nrf_details::encrypted_pdu_layout (layout overhead 1), MTU 40 with default_pdu_layout; the buffered radio below it is the environment')
 
 LOVH = {0: 0, 1: 1, 2: 0}
+MTU = {0: 65, 1: 65, 2: 40}
+START, CONT, CTRL = 2, 1, 3
+# the receive loop of next_ll_l2cap_received() (one inlined copy per configuration): at most one PDU is pending per call
+RXLOOPS = ','.join('vf_sdu_next_ll_l2cap_received.%d:2' % i for i in range(3))
+# try_send_pdus(): one outlined copy per configuration
+TXFUNCS = ['_ZN7bluetoe10link_layer19ll_l2cap_sdu_bu_6eac0fa2', '_ZN7bluetoe10link_layer19ll_l2cap_sdu_bu_97e122cc', '_ZN7bluetoe10link_layer19ll_l2cap_sdu_bu_c13fa867']
+
+
+def rx_case(cfg, shape, tw=0):
+    c = {'CFG': cfg, 'K': len(shape), 'TW': tw, 'T0': 0, 'T1': 0, 'T2': 0, 'T3': 0, 'Z0': 0, 'Z1': 0, 'Z2': 0, 'Z3': 0}
+    for i, (t, z) in enumerate(shape):
+        c['T%d' % i] = t; c['Z%d' % i] = z
+    mx = max(z for _, z in shape) + 2 + LOVH[cfg]
+    c['MAXCOPY'] = mx
+    c['_unwindset'] = RXLOOPS + ',memmove.0:%d,in_bytes.0:%d' % (mx + 1, mx + 1)
+    return c
 
 
 def rx_cases(tier):
     """the shape (LLID and payload size of every PDU) is the case split; L2CAP length field, CID, all bytes stay symbolic"""
-    cs = []
-    def add(cfg, shape, payload=27):
-        c = {'CFG': cfg, 'K': len(shape), 'RXMAX': payload + 2 + LOVH[cfg], 'T0': -1, 'T1': -1, 'T2': -1, 'T3': -1, 'Z0': -1, 'Z1': -1, 'Z2': -1, 'Z3': -1, '_unwind': 8}
-        for i, (t, z) in enumerate(shape):
-            c['T%d' % i] = t; c['Z%d' % i] = z
-        cs.append(c)
-    START, CONT, CTRL = 2, 1, 3
-    sizes = (0, 3, 4, 5, 27) if tier == 'quick' else (0, 1, 3, 4, 5, 13, 26, 27)
-    cfgs = (0,) if tier == 'quick' else (0, 1, 2)
-    for cfg in cfgs:
-        # start, continuation, continuation with every combination of the listed payload sizes
+    S, C, L = START, CONT, CTRL
+    cs = [
+        rx_case(2, [(S, 27), (C, 27)]),                     # MTU 40: second fragment is longer than the announced rest can be
+        rx_case(2, [(C, 50)]),                              # orphaned continuation larger than the reassembly buffer
+        rx_case(2, [(S, 27), (C, 10), (C, 5)], tw=1),
+        rx_case(0, [(S, 27), (C, 27), (C, 27)]),
+        rx_case(0, [(S, 27), (S, 10), (C, 27)]),            # repeated start
+        rx_case(0, [(S, 27), (L, 5), (C, 27)]),             # LL control PDU between the fragments
+        rx_case(0, [(C, 27), (S, 27), (C, 27)]),            # orphaned continuation first
+        rx_case(1, [(S, 27), (C, 27), (C, 27)]),            # nRF encrypted layout
+        rx_case(0, [(S, 3), (C, 27)]),                      # start without complete L2CAP header
+        rx_case(0, [(S, 4), (C, 5), (C, 27)]),
+        rx_case(0, [(S, 5), (C, 0), (C, 27)]),
+        rx_case(0, [(L, 0), (S, 27), (L, 27), (C, 27)]),
+    ]
+    if tier == 'quick':
+        return cs
+    sizes = (0, 3, 4, 5, 13, 27)
+    for cfg in (0, 1, 2):
         for a in sizes:
             for b in sizes:
-                add(cfg, [(START, a), (CONT, b), (CONT, 27)])
-        # interleaved control PDU, repeated start, orphaned continuation
+                if cfg == 1 and a != b: continue        # nRF layout: diagonal only (same code, other constants)
+                cs.append(rx_case(cfg, [(S, a), (C, b), (C, 27)]))
         for b in sizes:
-            add(cfg, [(START, 27), (CTRL, b), (CONT, 27)])
-            add(cfg, [(START, 27), (START, b), (CONT, 27)])
-            add(cfg, [(CONT, b), (START, 27), (CONT, 27)])
-    if tier != 'quick':
-        for cfg in (0, 1):
-            add(cfg, [(START, 251), (CONT, 251)], payload=251)
-            add(cfg, [(CONT, 251), (START, 27)], payload=251)
-    return cs
+            cs.append(rx_case(cfg, [(S, 27), (L, b), (C, 27)]))
+            cs.append(rx_case(cfg, [(S, 27), (S, b), (C, 27)]))
+            cs.append(rx_case(cfg, [(C, b), (S, 27), (C, 27)]))
+        cs.append(rx_case(cfg, [(S, 27), (C, 27), (C, 27)], tw=1))
+        cs.append(rx_case(cfg, [(S, 27), (C, 27), (S, 27), (C, 27)]))
+        cs.append(rx_case(cfg, [(S, 27), (C, 13), (L, 2), (C, 27)]))
+    # long PDUs (LE data packet length extension)
+    for cfg in (0, 1, 2):
+        cs.append(rx_case(cfg, [(S, 60), (C, 60)]))
+        cs.append(rx_case(cfg, [(C, 251)]))
+        cs.append(rx_case(cfg, [(S, 251)]))
+    seen = set(); out = []
+    for c in cs:
+        k = tuple(sorted(c.items()))
+        if k not in seen:
+            seen.add(k); out.append(c)
+    return out
+
+
+def tx_case(cfg, payload, n, av, ll=5):
+    txmax = payload + 2 + LOVH[cfg]
+    frags = 2 + (n + 4 + payload - 1) // payload     # bound for the fragment loop
+    uws = ['%s.0:%d' % (f, frags + 1) for f in TXFUNCS]
+    uws += ['memmove.0:%d' % (txmax + 1), 'in_bytes.0:%d' % (MTU[cfg] + 4 + 2 + LOVH[cfg] + 1)]
+    return {'CFG': cfg, 'TXMAX': txmax, 'ROUNDS': 3, 'N': n, 'AV': av, 'LL': ll, 'MAXCOPY': txmax, '_unwindset': ','.join(uws)}
 
 
 def tx_cases(tier):
     cs = []
-    ns = (0, 1, 22, 23, 24, 50, 65) if tier == 'quick' else range(0, 66)
-    for cfg in ((0,) if tier == 'quick' else (0, 1, 2)):
-        for payload in (27, 100, 251):
-            for n in ns:
-                if n > {0: 65, 1: 65, 2: 40}[cfg]: continue
-                for av in (0xffff, 0xfffe, 0xfff5, 0xffe0):
-                    cs.append({'CFG': cfg, 'TXMAX': payload + 2 + LOVH[cfg], 'ROUNDS': 3, 'N': n, 'AV': av, '_unwind': 6})
+    if tier == 'quick':
+        for n in (0, 22, 23, 24, 50, 65):
+            cs.append(tx_case(0, 27, n, 0xffff))
+        for n in (24, 65):
+            cs.append(tx_case(0, 27, n, 0xfff5, ll=2))
+        cs.append(tx_case(0, 27, 65, 0xffe0, ll=7))
+        cs.append(tx_case(1, 27, 65, 0xffff))
+        cs.append(tx_case(1, 27, 23, 0xfffe))
+        cs.append(tx_case(2, 27, 40, 0xfff5))
+        cs.append(tx_case(0, 30, 56, 0xffff))       # exact multiple: 60 = 2 * 30
+        cs.append(tx_case(0, 30, 57, 0xffff))       # exact multiple + 1
+        cs.append(tx_case(0, 100, 65, 0xffff))
+        return cs
+    for cfg in (0, 1, 2):
+        for payload in (27, 30, 251):
+            for n in range(0, MTU[cfg] + 1):
+                if n not in (0, 1, 22, 23, 24, 25, 26, 27, 28, 40, 50, 52, 55, 56, 57, 58, 64, 65) and not (payload == 27 and cfg == 0): continue
+                for av, ll in ((0xffff, 5), (0xfff5, 2)):
+                    if av != 0xffff and not (n % 8 == 0 or n in (22, 23, 24, MTU[cfg])): continue
+                    cs.append(tx_case(cfg, payload, n, av, ll))
+        for av, ll in ((0xfffe, 0), (0xffe0, 7), (0xffe0, 0), (0xfeaa, 3)):
+            for n in (23, 24, MTU[cfg]):
+                cs.append(tx_case(cfg, 27, n, av, ll))
     return cs
 
 
-RX_BOUNDS = ('MTU 65 (default and nRF encrypted layout), MTU 40; from construction K = 3 PDUs (thorough: also 2 PDUs of 251 byte payload); the shape (LLID and payload size of every PDU) is enumerated: '
-             'start/continuation/continuation with payload sizes from {0,3,4,5,27} (thorough {0,1,3,4,5,13,26,27}) in every combination, and start-control-continuation, start-start-continuation, '
-             'continuation-start-continuation with the middle/first PDU of every listed size; per case the L2CAP length field (any 16 bit value), CID and all PDU bytes are symbolic; '
-             'quick: default layout MTU 65 only')
-TX_BOUNDS = ('one SDU from construction; payload size N enumerated (quick: 0,1,22,23,24,50,65; thorough: every 0..MTU), max_tx_size 27/100/251 byte payload, 4 availability patterns of the radio\'s transmit buffers '
-             '(always; first request refused; alternating; five refusals first), 3 further calls of next_ll_l2cap_received()/allocate_ll_transmit_buffer() (symbolic choice); all SDU bytes symbolic')
+RX_BOUNDS = ('MTU 65 (default and nRF encrypted layout), MTU 40; from construction K <= 4 PDUs; the shape (LLID and payload size of every PDU) is enumerated: quick 12 shapes (start/continuation sequences with '
+             'payload sizes 0..27 and 50, repeated start, orphaned continuation, interleaved LL control PDU, call repeated); thorough: start/continuation/continuation with payload sizes from {0,1,3,4,5,13,26,27} '
+             'in every combination, start-control-continuation, start-start-continuation, continuation-start-continuation with the middle/first PDU of every listed size, 4 PDU sequences, PDUs of 60 and 251 byte payload, '
+             'for all three configurations; per case the L2CAP length field (any 16 bit value), CID and all PDU bytes are symbolic')
+TX_BOUNDS = ('one SDU from construction; payload size N enumerated (quick: 0,22,23,24,50,65 and exact multiples of the fragment size; thorough: every 0..65 for MTU 65 / 27 byte fragments / default layout, 18 sizes around the multiples of the fragment size otherwise), max_tx_size 27/30/251 (quick also 100) byte payload, availability patterns of the '
+             'radio\'s transmit buffers (always; first request refused; alternating; five refusals first), 3 further calls of next_ll_l2cap_received()/allocate_ll_transmit_buffer() (enumerated patterns); all SDU bytes symbolic')
 
 PROPERTY = Property(
     'C19',
-    [Harness('c19_rx', SDU, 'harness/c19_rx.c', rx_cases, unwind=8, unwindset=['in_bytes.0:66', 'harness.1:200', 'take_snapshot.0:200', 'check_memory.0:200'], timeout=900, diff_iters=300, diff_cases=6,
-             flags=['-DVF_MAX_INPUTS=512'],
-             description='incoming: K PDUs of enumerated shape with symbolic content into the real next_ll_l2cap_received()/free_ll_l2cap_received(); deliveries compared with a reassembly written from the statement; all bytes of the object outside the reassembly buffer are canaries',
+    [Harness('c19_rx', SDU, 'harness/c19_rx.c', rx_cases, unwind=8, unwindset=['harness.1:200', 'memory_ok.0:200'], timeout=600, diff_iters=300, diff_cases=6,
+             flags=['-DVF_MAX_INPUTS=1024'],
+             description='incoming: K PDUs of enumerated shape with symbolic content into the real next_ll_l2cap_received()/free_ll_l2cap_received(); deliveries compared with a reassembly written from the statement; all bytes of the object behind the reassembly buffer are canaries',
              bounds=RX_BOUNDS),
-     Harness('c19_tx', SDU, 'harness/c19_tx.c', tx_cases, unwind=6, unwindset=['in_bytes.0:76', 'harness.0:17', 'harness.1:9', 'harness.2:17', 'harness.3:17', 'harness.4:74'], timeout=900, diff_iters=300, diff_cases=6,
+     Harness('c19_tx', SDU, 'harness/c19_tx.c', tx_cases, unwind=18, unwindset=['harness.1:80'], timeout=600, diff_iters=300, diff_cases=6,
              flags=['-DVF_MAX_INPUTS=512'],
              description='outgoing: one SDU with symbolic bytes through the real commit_l2cap_transmit_buffer()/try_send_pdus() into a stub radio that checks type, size and content of every fragment',
              bounds=TX_BOUNDS)],
@@ -68,12 +126,14 @@ PROPERTY = Property(
                'll_l2cap_sdu_buffer::allocate_l2cap_transmit_buffer', 'll_l2cap_sdu_buffer::commit_l2cap_transmit_buffer', 'll_l2cap_sdu_buffer::try_send_pdus',
                'll_l2cap_sdu_buffer::allocate_ll_transmit_buffer', 'll_l2cap_sdu_buffer::commit_ll_transmit_buffer'],
     bounds=RX_BOUNDS + ' | ' + TX_BOUNDS,
-    assumptions=['the radio delivers PDUs with LLID 1..3 whose length field equals their payload size, at most RXMAX bytes (LLID 0 is reserved and not generated)',
-                 'the link layer calls free_ll_l2cap_received() after every delivered PDU/SDU before the next PDU arrives',
+    assumptions=['the radio delivers PDUs with LLID 1..3 whose length field equals their payload size (LLID 0 is reserved and not generated)',
+                 'the link layer calls free_ll_l2cap_received() after every delivered PDU/SDU before the next PDU arrives (at most one PDU is pending in the radio per call)',
                  'the L2CAP layer writes the L2CAP length field equal to the payload size it allocated',
-                 'a new start fragment ends a reassembly in progress (Core spec: a start fragment begins a new L2CAP PDU); overlong fragments may be cut at the announced length or the SDU dropped (permissive)'],
-    explanation='incoming PDUs are exact objects of the radio, their content symbolic; the oracle reassembles independently (start opens, continuations append, announced length closes) and compares size, origin and one universally quantified byte of every delivery, and all bytes of the ll_l2cap_sdu_buffer object outside receive_buffer_ and its two counters before/after every call (intra-object overflow detection); outgoing fragments are checked in the stub radio at commit time',
-    outside=['payload sizes of the incoming PDUs outside the enumerated sets; more than 3 PDUs; LLID 0',
+                 'a new start fragment ends a reassembly in progress (Core spec: a start fragment begins a new L2CAP PDU); overlong fragments may be cut at the announced length or the SDU dropped (permissive)',
+                 'memmove (std::copy) is modelled by a bounded byte loop under CBMC; source and destination are distinct objects (asserted)'],
+    explanation='incoming PDUs are exact-size objects of the radio, their content symbolic; the oracle reassembles independently (start opens, continuations append, announced length closes) and compares size, origin and one universally quantified byte of every delivery; after every call receive_buffer_used_ + receive_size_ <= sizeof receive_buffer_ and all bytes of the ll_l2cap_sdu_buffer object behind receive_buffer_ other than the two counters (symbolic canary values) are compared (intra-object overflow detection; a copy starts inside the buffer and runs upwards, so an overflow hits the first canary); outgoing fragments are checked in the stub radio at commit time (type, length field, size <= max_tx_size, one universally quantified SDU byte, total)',
+    outside=['payload sizes of the incoming PDUs outside the enumerated sets; more than 4 PDUs; more than one PDU pending in the radio when next_ll_l2cap_received() is called; LLID 0',
              'the specialisation for the default MTU 23 (pure forwarding)',
-             'max_tx_size changing between the fragments of one SDU'],
+             'max_tx_size changing between the fragments of one SDU',
+             'writes of try_send_pdus() behind the requested size but inside the radio\'s (max_tx_size large) transmit buffer'],
 )
